@@ -16,6 +16,26 @@ use std::mem::size_of_val;
 use std::panic::{catch_unwind, AssertUnwindSafe};
 
 
+/// A byte argument as the caller's slice at an ODD address (offset 1 of a fresh buffer): constructors copy
+/// their arguments, nothing about the source's alignment may matter.
+struct Odd(Vec<u8>);
+impl Odd {
+    fn of(b: Vec<u8>) -> Odd {
+        // Vec<u8> buffers come 8-aligned (or better) from the allocator: one byte in front makes the data odd
+        let mut v = Vec::with_capacity(b.len() + 1);
+        v.push(0xEE);
+        v.extend_from_slice(&b);
+        Odd(v)
+    }
+    fn bytes(&self) -> &[u8] {
+        &self.0[1..]
+    }
+    fn text(&self) -> &str {
+        std::str::from_utf8(self.bytes()).expect("text argument must be UTF-8")
+    }
+}
+
+#[allow(dead_code)]
 fn s(call: &Value, n: &str) -> String {
     // text arguments travel as byte lists
     String::from_utf8(out::arg_bytes(call, n)).expect("text argument must be UTF-8")
@@ -40,13 +60,13 @@ fn events_json(ev: &[Event], ids: &mut HashMap<usize, u64>) -> Value {
 // ---- constructors: arguments -> concrete tag ------------------------------------------------
 
 fn mk_cmdline(c: &Value) -> Box<CommandLineTag> {
-    CommandLineTag::new(&s(c, "text"))
+    CommandLineTag::new(Odd::of(out::arg_bytes(c, "text")).text())
 }
 fn mk_bootloader(c: &Value) -> Box<BootLoaderNameTag> {
-    BootLoaderNameTag::new(&s(c, "text"))
+    BootLoaderNameTag::new(Odd::of(out::arg_bytes(c, "text")).text())
 }
 fn mk_module(c: &Value) -> Box<ModuleTag> {
-    ModuleTag::new(u(c, "start_address") as u32, u(c, "end_address") as u32, &s(c, "text"))
+    ModuleTag::new(u(c, "start_address") as u32, u(c, "end_address") as u32, Odd::of(out::arg_bytes(c, "text")).text())
 }
 fn mk_mmap(c: &Value) -> Box<MemoryMapTag> {
     let areas: Vec<MemoryArea> = c["areas"]
@@ -81,13 +101,13 @@ fn mk_framebuffer(c: &Value) -> Box<FramebufferTag> {
     FramebufferTag::new(u(c, "address"), u(c, "pitch") as u32, u(c, "width") as u32, u(c, "height") as u32, u(c, "bpp") as u8, ty)
 }
 fn mk_elf(c: &Value) -> Box<ElfSectionsTag> {
-    ElfSectionsTag::new(u(c, "number_of_sections") as u32, u(c, "entry_size") as u32, u(c, "shndx") as u32, &out::arg_bytes(c, "content"))
+    ElfSectionsTag::new(u(c, "number_of_sections") as u32, u(c, "entry_size") as u32, u(c, "shndx") as u32, Odd::of(out::arg_bytes(c, "content")).bytes())
 }
 fn mk_smbios(c: &Value) -> Box<SmbiosTag> {
-    SmbiosTag::new(u(c, "major") as u8, u(c, "minor") as u8, &out::arg_bytes(c, "content"))
+    SmbiosTag::new(u(c, "major") as u8, u(c, "minor") as u8, Odd::of(out::arg_bytes(c, "content")).bytes())
 }
 fn mk_network(c: &Value) -> Box<NetworkTag> {
-    NetworkTag::new(&out::arg_bytes(c, "content"))
+    NetworkTag::new(Odd::of(out::arg_bytes(c, "content")).bytes())
 }
 fn mk_efi_mmap(c: &Value) -> Box<EFIMemoryMapTag> {
     if let Some(ds) = c["descs"].as_array() {
@@ -103,11 +123,11 @@ fn mk_efi_mmap(c: &Value) -> Box<EFIMemoryMapTag> {
             .collect();
         EFIMemoryMapTag::new_from_descs(&descs)
     } else {
-        EFIMemoryMapTag::new_from_map(u(c, "desc_size") as u32, u(c, "desc_version") as u32, &out::arg_bytes(c, "content"))
+        EFIMemoryMapTag::new_from_map(u(c, "desc_size") as u32, u(c, "desc_version") as u32, Odd::of(out::arg_bytes(c, "content")).bytes())
     }
 }
 fn mk_custom(c: &Value) -> Box<DynSizedStructure<TagHeader>> {
-    new_boxed(TagHeader::new(TagTypeId::new(u(c, "typ") as u32), 0), &[&out::arg_bytes(c, "content")])
+    new_boxed(TagHeader::new(TagTypeId::new(u(c, "typ") as u32), 0), &[Odd::of(out::arg_bytes(c, "content")).bytes()])
 }
 fn mk_info_req(c: &Value) -> Box<h::InformationRequestHeaderTag> {
     let reqs: Vec<h::MbiTagTypeId> = c["requests"].as_array().map(|a| a.iter().map(|x| h::MbiTagTypeId::new(out::arg_u64(&json!({"v": x}), "v") as u32)).collect()).unwrap_or_default();
@@ -307,8 +327,8 @@ fn construct(c: &Value) -> Value {
 
 /// new_boxed on the generic structure of each header kind (C16: layout, size patching, alloc/dealloc pairing)
 fn new_boxed_op(c: &Value) -> Value {
-    let slices: Vec<Vec<u8>> = c["slices"].as_array().map(|a| a.iter().map(|x| x.as_array().unwrap().iter().map(|b| b.as_u64().unwrap() as u8).collect()).collect()).unwrap_or_default();
-    let refs: Vec<&[u8]> = slices.iter().map(|v| v.as_slice()).collect();
+    let slices: Vec<Odd> = c["slices"].as_array().map(|a| a.iter().map(|x| Odd::of(x.as_array().unwrap().iter().map(|b| b.as_u64().unwrap() as u8).collect())).collect()).unwrap_or_default();
+    let refs: Vec<&[u8]> = slices.iter().map(|v| v.bytes()).collect();
     let typ = u(c, "typ") as u32;
     match out::arg_str(c, "h") {
         "tag" => boxed(c, || new_boxed::<DynSizedStructure<TagHeader>>(TagHeader::new(TagTypeId::new(typ), 0), &refs), typ as u64),
